@@ -484,6 +484,152 @@ class CFG:
             return set()
         return self._mf.get(p[0], set())
 
+    # -- branch facts with invalidation (kill on writes to the variables of the condition)
+    def written_decls(self, n):
+        """declIds possibly modified by executing element n (not its children)."""
+        k = n["k"]
+        out = set()
+        if k == "UnaryOperator" and n.get("op") in ("++", "--"):
+            t = strip(kids(n)[0])
+            if t is not None and t["k"] == "DeclRefExpr":
+                out.add(t.get("declId"))
+        elif k in ("BinaryOperator", "CompoundAssignOperator") and (
+                n.get("op") == "=" or k == "CompoundAssignOperator"):
+            t = strip(kids(n)[0])
+            if t is not None and t["k"] == "DeclRefExpr":
+                out.add(t.get("declId"))
+        elif k in ("CallExpr", "CXXMemberCallExpr", "CXXOperatorCallExpr", "CXXConstructExpr"):
+            # an lvalue passed without lvalue-to-rvalue conversion may be bound to a
+            # non-const reference / have its address taken
+            for a in kids(n)[1:] if k != "CXXConstructExpr" else kids(n):
+                t = a
+                while t is not None and t["k"] in ("ParenExpr",):
+                    t = kids(t)[0]
+                if t is not None and t["k"] == "DeclRefExpr" and t.get("lv") and \
+                        not t.get("ct", "").startswith("const ") and t.get("dk") in ("Var", "Parm"):
+                    out.add(t.get("declId"))
+                if t is not None and t["k"] == "UnaryOperator" and t.get("op") == "&":
+                    u = strip(kids(t)[0])
+                    if u is not None and u["k"] == "DeclRefExpr":
+                        out.add(u.get("declId"))
+        return out
+
+    def cond_decls(self, cid):
+        if not hasattr(self, "_cd"):
+            self._cd = {}
+        if cid not in self._cd:
+            n = self.func.nodes.get(cid)
+            self._cd[cid] = {x.get("declId") for x in walk(n) if x["k"] == "DeclRefExpr"} if n else set()
+        return self._cd[cid]
+
+    def must_facts_kill(self):
+        """Like must_facts, but a fact is dropped as soon as a variable occurring
+        in its condition may be written."""
+        live = self.live_blocks()
+        TOP = None
+        fin = {b: TOP for b in live}
+        fin[self.entry] = set()
+        work = deque([self.entry])
+        wr = {}
+        for b in live:
+            w = set()
+            for e in self.blocks[b]["el"]:
+                n = self.func.nodes.get(e)
+                if n is not None:
+                    w |= self.written_decls(n)
+            wr[b] = w
+        while work:
+            b = work.popleft()
+            cur = fin[b]
+            if cur is TOP:
+                continue
+            cur = {f for f in cur if not (self.cond_decls(f[0]) & wr[b])}
+            efs = self.edge_facts(b)
+            for i, s in enumerate(self.succ[b]):
+                if s is None or s not in live:
+                    continue
+                new = cur | efs[i]
+                old = fin[s]
+                if old is TOP:
+                    fin[s] = set(new)
+                    work.append(s)
+                else:
+                    inter = old & new
+                    if inter != old:
+                        fin[s] = inter
+                        work.append(s)
+        return {b: (v if v is not None else set()) for b, v in fin.items()}
+
+    def valid_facts_at(self, node):
+        """Branch facts that hold right before `node` executes, with kills."""
+        if not hasattr(self, "_mfk"):
+            self._mfk = self.must_facts_kill()
+        p = self.position(node)
+        if p is None:
+            return set()
+        facts = set(self._mfk.get(p[0], set()))
+        for e in self.blocks[p[0]]["el"][:p[1]]:
+            n = self.func.nodes.get(e)
+            if n is None:
+                continue
+            w = self.written_decls(n)
+            if w:
+                facts = {f for f in facts if not (self.cond_decls(f[0]) & w)}
+        return facts
+
+    def semantic_must(self, edge_gen, node_kill):
+        """Forward must-analysis over arbitrary hashable facts.
+        edge_gen(cond_node, polarity) -> set of facts generated on a branch edge;
+        node_kill(node, fact) -> True if executing element `node` invalidates fact.
+        Returns a function facts_before(node) -> set."""
+        live = self.live_blocks()
+        TOP = None
+        fin = {b: TOP for b in live}
+        fin[self.entry] = set()
+        work = deque([self.entry])
+
+        def through(b, facts, upto=None):
+            els = self.blocks[b]["el"]
+            if upto is not None:
+                els = els[:upto]
+            for e in els:
+                n = self.func.nodes.get(e)
+                if n is None or not facts:
+                    continue
+                facts = {f for f in facts if not node_kill(n, f)}
+            return facts
+        while work:
+            b = work.popleft()
+            cur = fin[b]
+            if cur is TOP:
+                continue
+            out = through(b, set(cur))
+            efs = self.edge_facts(b)
+            for i, s in enumerate(self.succ[b]):
+                if s is None or s not in live:
+                    continue
+                gen = set()
+                for (cid, pol) in efs[i]:
+                    if not isinstance(pol, tuple):
+                        gen |= edge_gen(self.func.nodes[cid], pol)
+                new = out | gen
+                old = fin[s]
+                if old is TOP:
+                    fin[s] = set(new)
+                    work.append(s)
+                else:
+                    inter = old & new
+                    if inter != old:
+                        fin[s] = inter
+                        work.append(s)
+
+        def facts_before(node):
+            p = self.position(node)
+            if p is None or fin.get(p[0]) is None:
+                return set()
+            return through(p[0], set(fin[p[0]]), p[1])
+        return facts_before
+
     # -- typestate ------------------------------------------------------------
     def run_typestate(self, init, transfer):
         """Forward may-analysis with a finite set of automaton states.
